@@ -187,6 +187,12 @@ def parseMatch (x : Ext) (s : Str) : Option Match :=
 
 /-! ### evaluation -/
 
+/-- `(v & o) == v` on the bit patterns of two integers; `none` (incompatible) if one is a float -/
+def flagTest (a b : Num) : Option Bool :=
+  match asBits a, asBits b with
+  | some va, some vb => some ((va &&& vb) == va)
+  | _, _ => none
+
 /-- `DirectMatch::match_value`; `none` is `Err(())` (incompatible types) -/
 def matchValue (x : Ext) (op : MOp) (v : MatchValue) (tgt : FieldValue) : Option Bool :=
   -- a text field is converted when a number is expected (`compat`)
@@ -213,10 +219,7 @@ def matchValue (x : Ext) (op : MOp) (v : MatchValue) (tgt : FieldValue) : Option
     | .lte => match fv, v with | .num a, .num b => some (numLe a b) | _, _ => none
     | .flag =>
       match v, fv with
-      | .num a, .num b =>
-        match asBits a, asBits b with
-        | some va, some vb => some ((va &&& vb) == va)
-        | _, _ => none
+      | .num a, .num b => flagTest a b
       | _, _ => none
     | .rex =>
       match v, fv with
